@@ -340,7 +340,13 @@ def mutant_check(item, built, root_name, limit, bump, sets):
             continue
         # same name: is the mutant semantically different?  pandas decides
         try:
-            v2 = b2.eval_pd()[p2["out"]]
+            vals2 = b2.eval_pd()
+            # a mutant that selects one label twice is outside the workload class of every generator here (programs with
+            # duplicated column labels are never generated; dask-expr merges stacked projections by label)
+            if any(isinstance(v_.pd, pd.DataFrame) and v_.pd.columns.has_duplicates for v_ in vals2):
+                bump("mutants_invalid_duplicate_labels")
+                continue
+            v2 = vals2[p2["out"]]
             d = compare(v2.pd, ref_pd.pd, order=ref_pd.order and v2.order, index=ref_pd.index and v2.index, dtypes=True, exact=True)
             same_struct = kind in ("npartitions", "chunksize", "cut-vector")
         except Exception:
